@@ -839,6 +839,8 @@ class Emitter:
         if k == 'cast':
             s, t = self.expr(e[1], env)
             tt = self.ty(e[2])
+            if tt == 'f64' and t == 'f32':
+                return '(Ruint.Float.f32ToF64 %s)' % s, tt          # exact widening
             if tt in ('f64', 'f32'):
                 if t not in ('u64', 'u32', 'u16', 'u8', 'usize', 'u128'):
                     raise TranslateError('cast of a %r to %s' % (t, tt))
@@ -846,6 +848,10 @@ class Emitter:
                 return '(Ruint.Float.ofNat %s %s)' % (FFMT[tt], s), tt
             if t == 'bool':
                 return '(%s).toNat' % s, tt
+            if isinstance(t, str) and t in SIGNED and self.w(tt) > self.w(t):
+                # widening a signed integer sign-extends its two's-complement pattern
+                return '(if decide (2 ^ %d ≤ %s) then %s + (2 ^ %d - 2 ^ %d) else %s)' % (
+                    self.w(t) - 1, s, s, self.w(tt), self.w(t), s), tt
             if self.w(tt) >= self.w(t):
                 return s, tt
             return '(%s %% 2 ^ %d)' % (s, self.w(tt)), tt
@@ -1125,6 +1131,18 @@ class Emitter:
             sa, ta = self.expr(a, env, exp)
             sb, _ = self.expr(b, env, 'u32')
             if ta == 'uint' and getattr(self, 'uint_mode', False) != 'value':
+                sb0, tb0 = self.expr(b, env, None)
+                opkey = 'Uint::%s_%s' % ('shl' if op == '<<' else 'shr', tb0)
+                if isinstance(tb0, str) and opkey in self.fns:
+                    # `Shl<$u>` / `Shr<$u> for Uint` for another integer type: the generated `@main` arm of impl_shift!
+                    sig = self.fns[opkey]
+                    ss = ['BITS', 'LIMBS', sa, sb0]
+                    if len(sig) > 3 and sig[3]:
+                        self.uses_fuel = True
+                        ss = ['fuel'] + ss
+                    return '(%s %s)' % (sig[0], ' '.join(ss)), 'uint'
+                if isinstance(tb0, str) and tb0 in SIGNED:
+                    raise TranslateError('shift of a Uint by a signed amount before %s is translated' % opkey)
                 # `Shl<usize>` / `Shr<usize> for Uint` are `wrapping_shl` / `wrapping_shr` (impl_shift! in src/bits.rs)
                 key = 'Uint::wrapping_shl' if op == '<<' else 'Uint::wrapping_shr'
                 if key not in self.fns:
@@ -1312,6 +1330,9 @@ class Emitter:
                 # the function calls itself (`TryFrom<f64>`): the recursion is on fuel; running out of it is `none`
                 self.uses_fuel = True
                 return '(%s fuel BITS LIMBS %s)' % (self.recursive, sk), ('option', self.inner_rt)
+            if tk == 'f64' and 'UintV::try_from_f64' in self.fns:
+                self.uses_fuel = True
+                return '(%s fuel BITS LIMBS %s)' % (self.fns['UintV::try_from_f64'][0], sk), ('option', ('result', 'uint', et_))
             if tk in ('u64', 'usize'):
                 # `TryFrom<u64> for Uint` at the value level (C07): `Ok(k)` when k fits, else `Err(ValueTooLarge(BITS, k mod 2^BITS))`
                 return ('(let k_ := %s; if decide (k_ < 2 ^ BITS) then (Except.ok k_ : Except (Nat × Nat × Nat) Nat) '
@@ -1715,7 +1736,8 @@ class Emitter:
             return True
         if e[0] == 'call' and e[1] == ['Self', 'from'] and getattr(self, 'uint_mode', False) == 'value':
             return True
-        if e[0] == 'call' and e[1] == ['Self', 'try_from'] and getattr(self, 'recursive', None) and len(e[2]) == 1:
+        if e[0] == 'call' and e[1] == ['Self', 'try_from'] and len(e[2]) == 1 and getattr(self, 'uint_mode', False) == 'value' \
+                and (getattr(self, 'recursive', None) or 'UintV::try_from_f64' in self.fns):
             try:
                 return self.expr(e[2][0], dict(getattr(self, 'cur_env', {})), None)[1] == 'f64'     # the recursive call
             except TranslateError:
@@ -2877,6 +2899,9 @@ class Emitter:
                     return True
                 if node[0] == 'call' and node[1] == ['Self', 'from'] and getattr(self, 'uint_mode', False) == 'value':
                     return True
+                if node[0] == 'call' and node[1] == ['Self', 'try_from'] and len(node[2]) == 1 and node[2][0][0] == 'cast' \
+                        and node[2][0][2] == 'f64' and 'UintV::try_from_f64' in self.fns and getattr(self, 'uint_mode', False) == 'value':
+                    return True             # `Self::try_from(x as f64)`: the (panicking) `TryFrom<f64>`
                 if node[0] == 'call' and ('::'.join(node[1]) in getattr(self, 'panic_externs', ())
                                           or node[1][-1] in getattr(self, 'panic_externs', ())):
                     return True
@@ -3484,7 +3509,9 @@ def float_value_items(repo):
     methods are the binary64 model's (`Ruint.Float`: `lt`, `ge`, `add`, `fmod`, `abs`, `isNaN`, `isNormal`, `exp2Int`), the
     function's two recursive calls are recursion on fuel"""
     return [{'file': repo + '/src/from.rs', 'fn': 'try_from', 'lean': 'val_try_from_f64', 'key': 'UintV::try_from_f64',
-             'after': 'TryFrom<f64> for Uint<BITS, LIMBS>', 'uint': 'value', 'self_ty': 'uint', 'group': 'floatv', 'recursive': True}]
+             'after': 'TryFrom<f64> for Uint<BITS, LIMBS>', 'uint': 'value', 'self_ty': 'uint', 'group': 'floatv', 'recursive': True},
+            {'file': repo + '/src/from.rs', 'fn': 'try_from', 'lean': 'val_try_from_f32', 'key': 'UintV::try_from_f32',
+             'after': 'TryFrom<f32> for Uint<BITS, LIMBS>', 'uint': 'value', 'self_ty': 'uint', 'group': 'floatv'}]
 
 
 def to_float_items(repo):
@@ -3495,6 +3522,28 @@ def to_float_items(repo):
              'self_ty': 'f64', 'after': 'From<&Uint<BITS, LIMBS>> for f64'},
             {'file': f, 'fn': 'from', 'lean': 'f32_from_uint', 'key': 'f32::from_uint', 'group': 'tofloat', 'uint': True,
              'self_ty': 'f32', 'after': 'From<&Uint<BITS, LIMBS>> for f32'}]
+
+
+SHIFT_TYPES = ('usize', 'u8', 'u16', 'u32', 'isize', 'i8', 'i16', 'i32', 'u64', 'i64')
+
+
+def int_shift_items(repo):
+    """the `@main` and `@assign` arms of `impl_shift!` (src/bits.rs) instantiated for every integer type of its invocations:
+    `Shl<$u>` / `Shr<$u>` (`self.wrapping_shl(rhs as usize)` — the cast sign-extends signed amounts) and `ShlAssign<$u>` /
+    `ShrAssign<$u>` (`*self = *self << rhs`)"""
+    f = repo + '/src/bits.rs'
+    src = open(f).read()
+    found = []
+    for m in re.finditer(r'^impl_shift!\(([^)@]*)\);', src, re.M):
+        found += [x.strip() for x in m.group(1).split(',') if x.strip()]
+    u = {'self_ty': 'uint', 'uint': True, 'group': 'intshift', 'externs': UINT_EXTERNS, 'file': f}
+    out = []
+    for t in found:
+        for fn in ('shl', 'shr'):
+            out.append(dict(u, fn=fn, lean='uint_%s_%s' % (fn, t), key='Uint::%s_%s' % (fn, t), after='(@main $u:ty)', subst={'$u': t}))
+        for fn in ('shl_assign', 'shr_assign'):
+            out.append(dict(u, fn=fn, lean='uint_%s_%s' % (fn, t), key='Uint::%s_%s' % (fn, t), after='(@assign $u:ty)', subst={'$u': t}))
+    return out
 
 
 def macro_items(repo):
@@ -3571,7 +3620,8 @@ GROUPS = [('core', 'Words', ('Ruint.Gen.Prelude',)),
           ('logv', 'WordsLog', ('Ruint.Gen.WordsValue', 'Ruint.Gen.PreludeRes')),
           ('rootv', 'WordsRoot', ('Ruint.Gen.WordsValue', 'Ruint.Gen.PreludeRes')),
           ('floatv', 'WordsFloat', ('Ruint.Gen.WordsValue', 'Ruint.Gen.PreludeRes', 'Ruint.Model.Float')),
-          ('tofloat', 'WordsToFloat', ('Ruint.Gen.WordsUint', 'Ruint.Model.Float'))]
+          ('tofloat', 'WordsToFloat', ('Ruint.Gen.WordsUint', 'Ruint.Model.Float')),
+          ('intshift', 'WordsIntShift', ('Ruint.Gen.WordsUint',))]
 
 
 def translate_all(repo):
@@ -3603,6 +3653,7 @@ def translate_all(repo):
     items += root_value_items(repo)
     items += float_value_items(repo)
     items += to_float_items(repo)
+    items += int_shift_items(repo)
     try:
         items += lehmer_items(repo)
     except (OSError, IOError) as ex:
